@@ -308,6 +308,21 @@ func runCoreScripted(seed uint64, n int, out *Out) {
 			c.resolve(m, 5, 0)
 			c.endBlock()
 		},
+		// 7: the hand-over corner of the settlement bound (c05_ceil_bound_counterexample): order-book batch size 1, two
+		//    markets without bets, one deposit on the first, both cancelled in one block: the first end-block pays the
+		//    participation and uses up the budget, the empty second book is only closed by the second end-block
+		func(h int) {
+			c := newCoreScript(out, h, 100, 0, 2, 1, 0, 1, 1)
+			m1 := c.market(2)
+			m2 := c.market(2)
+			c.deposit(m1, 1, 1000)
+			c.endBlock()
+			c.resolve(m1, 3, 0)
+			c.resolve(m2, 3, 0)
+			c.endBlock()
+			c.endBlock()
+			c.endBlock()
+		},
 	}
 	for h, f := range scripts {
 		if skipHist(h) {
